@@ -44,6 +44,7 @@ var targets = []target{
 	{"types/data.go", "", "Validate"},
 	{"types/state.go", "State", "NextState"},
 	{"block/manager.go", "Manager", "execValidate"},
+	{"block/manager.go", "Manager", "retrieveBatch"},
 	{"block/manager.go", "Manager", "isUsingExpectedSingleSequencer"},
 	{"block/manager.go", "Manager", "isValidSignedData"},
 	{"block/manager.go", "Manager", "exponentialBackoff"},
@@ -232,6 +233,10 @@ func (t *tr) expr(e ast.Expr) string {
 		}
 		return "(ELit " + q(ty) + " " + list(fs) + ")"
 	case *ast.CallExpr:
+		// []byte(x), []T(x): a conversion, no effect on the symbolic value
+		if _, ok := x.Fun.(*ast.ArrayType); ok && len(x.Args) == 1 {
+			return "(EId " + t.expr(x.Args[0]) + ")"
+		}
 		switch f := x.Fun.(type) {
 		case *ast.Ident:
 			if f.Name == "make" && len(x.Args) >= 1 {
